@@ -4,7 +4,8 @@
    statements for EVERY schema that passes the boolean check wf_events_b (unique store names, parents
    are root stores, cascade deletes follow a strictly increasing store rank, i.e. no cascade cycle). *)
 From Coq Require Import List NArith Bool Permutation.
-From Storage Require Import Base.Bytes Store.Model Store.Events Store.EventProofs Store.EventAnyProofs.
+From Storage Require Import Base.Bytes Store.Model Store.Events Store.EventProofs Store.EventAnyProofs
+  Store.TxHooks Store.TxHooksProofs.
 Import ListNotations.
 
 (* A committed transaction delivers, as a multiset, exactly the expected events: for each successful
@@ -173,3 +174,53 @@ Theorem events_at_least_once_any_cascade : forall sch, wf_events0_b sch = true -
                                            (0 < expected_op sch st0 st1 o e)%nat).
 Proof. exact events_any_cascade_wf. Qed.
 Print Assumptions events_at_least_once_any_cascade.
+
+(* ---- the hooks of a transaction as the caller registers them (Store/TxHooks.v: mutateContext + DbImpl.Update /
+   DbImpl.Batch): commit actions and pre-commit actions registered on the context object BEFORE the transaction
+   (ctx0), inside the function, and inside nested Db.Update / Db.Batch calls that join the running transaction ---- *)
+
+(* Whatever the program registers and however it nests, results, commit flag, state and delivered events are those
+   of the instrumented machine run on the program's operations; so every theorem above applies to it. *)
+Theorem db_update_refines_run_tx_v : forall sch fuel st sys vetoes ctx0 body,
+  let o := db_update sch fuel st sys vetoes ctx0 body in
+  let v := run_tx_v sch fuel st (hook_tx sys vetoes ctx0 body) in
+  ho_results o = to_results v /\ ho_committed o = to_committed v /\ ho_state o = to_state v /\ ho_events o = to_events v.
+Proof. exact db_update_refines_lemma. Qed.
+Print Assumptions db_update_refines_run_tx_v.
+
+(* Commit: the commit-action executions are exactly the registrations (context-before-the-transaction ++ body incl.
+   nested calls ++ those added by pre-commit actions), each once; every registered pre-commit action ran once, in
+   order; each tx-complete listener once.  Rollback: no commit action, no tx-complete listener, no event, state
+   unchanged.  A failed operation: rollback, and no pre-commit action ran. *)
+Theorem hooks_exactly_once : forall sch fuel st sys vetoes ctx0 body,
+  let o := db_update sch fuel st sys vetoes ctx0 body in
+  (ho_committed o = true ->
+     ho_commit_runs o = registered_commits ctx0 body /\
+     ho_pre_runs o = map fst (registered_pres ctx0 body) /\
+     ho_tc o = 1%nat) /\
+  (ho_committed o = false ->
+     ho_commit_runs o = [] /\ ho_tc o = 0%nat /\ ho_events o = [] /\ ho_state o = st) /\
+  (forall k, In (Some k) (ho_results o) -> ho_committed o = false /\ ho_pre_runs o = []).
+Proof. exact hooks_exactly_once_lemma. Qed.
+Print Assumptions hooks_exactly_once.
+
+(* the same as counts, when every registration has its own label (as in the harness) *)
+Theorem hooks_count_once : forall sch fuel st sys vetoes ctx0 body,
+  let o := db_update sch fuel st sys vetoes ctx0 body in
+  ho_committed o = true ->
+  (NoDup (registered_commits ctx0 body) ->
+   forall k, In k (registered_commits ctx0 body) -> count_occ PeanoNat.Nat.eq_dec (ho_commit_runs o) k = 1%nat) /\
+  (NoDup (map fst (registered_pres ctx0 body)) ->
+   forall k, In k (map fst (registered_pres ctx0 body)) -> count_occ PeanoNat.Nat.eq_dec (ho_pre_runs o) k = 1%nat) /\
+  (forall k, ~ In k (registered_commits ctx0 body) -> count_occ PeanoNat.Nat.eq_dec (ho_commit_runs o) k = 0%nat).
+Proof. exact hooks_count_once_lemma. Qed.
+Print Assumptions hooks_count_once.
+
+(* A nested Db.Update / Db.Batch with the context of the running transaction is transparent: the whole observation
+   (results, commit, state, events, every hook execution) equals that of the program with the nested calls' items
+   spliced in place, at any nesting depth. *)
+Theorem nested_join_transparent : forall sch fuel st sys vetoes ctx0 body,
+  db_update sch fuel st sys vetoes ctx0 body = db_update sch fuel st sys vetoes ctx0 (flatten body) /\
+  nest_free (flatten body) = true.
+Proof. exact nested_join_transparent_lemma. Qed.
+Print Assumptions nested_join_transparent.
